@@ -20,6 +20,7 @@ def run(chk, replay=None):
     progs += corelib.effect_programs()
     progs += corelib.literal_programs(chk)
     progs += corelib.long_scope_programs(chk)
+    progs += corelib.shadow_product_programs()
     rejected = []
     acc = corelib.check_terms(chk, progs, on_reject=lambda g, a: rejected.append((g, a)))
     for g, a in rejected:
